@@ -596,7 +596,8 @@ theorem relate_eq_branch (C : Ctx) (X Y : Inst) (rel phrase : String) (st : Stat
 /-- **(b)** `relate` on live instances: accepted by the mechanism ⇒ accepted by Spec and the results correspond (the
     pair is added at the end of both partners' lists, or was there already); rejected by the mechanism
     (RelateException after the undo, or UnknownLink) ⇒ rejected by Spec, and neither state changes.
-    Guard: both instances live (Spec rejects a relate of a deleted instance, the mechanism does not look). -/
+    Here for two live instances; `relate_refines'` covers any two created instances (a deleted one is rejected on
+    both sides since the mechanism keeps its `deleted` set). -/
 theorem relate_refines (hk : Function.Injective kname) (kinds : List Nat) (sch : MSchema)
     (R : Refines kname ι s st) (A : Pyx.Meta.AllInv sch s) {x y : Nat}
     (hx : Pyx.Meta.live s x) (hy : Pyx.Meta.live s y) (rel phrase : String) :
@@ -612,7 +613,8 @@ theorem relate_refines (hk : Function.Injective kname) (kinds : List Nat) (sch :
   rw [relate_eq_branch, lx, ly]
   simp only [Bool.and_self, if_true]
   rw [hfl]
-  unfold Pyx.Meta.relate
+  rw [Pyx.Meta.relate_of_live hx hy]
+  unfold Pyx.Meta.relateCore
   cases hf : Pyx.Meta.findLink sch (s.kindOf x) (s.kindOf y) rel phrase with
   | none =>
     simp only
@@ -622,6 +624,32 @@ theorem relate_refines (hk : Function.Injective kname) (kinds : List Nat) (sch :
     cases d with
     | fwd => exact relate_core R A rel i hx.1 hy.1
     | rev => exact relate_core R A rel i hy.1 hx.1
+
+/-- **(b')** `relate` on ANY two created instances: if one of them is not live (deleted), the mechanism rejects
+    (RelateException, or UnknownLinkException when no association matches) and so does Spec; neither state changes -/
+theorem relate_refines' (hk : Function.Injective kname) (kinds : List Nat) (sch : MSchema)
+    (R : Refines kname ι s st) (A : Pyx.Meta.AllInv sch s) {x y : Nat}
+    (hx : x < s.count) (hy : y < s.count) (rel phrase : String) :
+    ((Pyx.Meta.relate sch s x y rel phrase).2 = .ok →
+      ∃ st', relate (ctxOf kname kinds sch) (ι x) (ι y) rel phrase st = .ok st' ∧
+        Refines kname ι (Pyx.Meta.relate sch s x y rel phrase).1 st') ∧
+    ((Pyx.Meta.relate sch s x y rel phrase).2 ≠ .ok →
+      (Pyx.Meta.relate sch s x y rel phrase).1 = s ∧
+        ∃ e, relate (ctxOf kname kinds sch) (ι x) (ι y) rel phrase st = .error e) := by
+  by_cases hl : Pyx.Meta.live s x ∧ Pyx.Meta.live s y
+  · exact relate_refines hk kinds sch R A hl.1 hl.2 rel phrase
+  · have hm := Pyx.Meta.relate_not_live_fst (sch := sch) hl rel phrase
+    refine ⟨fun hok => absurd hok hm.2, fun _ => ⟨hm.1, ?_⟩⟩
+    rw [relate_eq_branch]
+    have hb : (st.isLive (ι x) && st.isLive (ι y)) = false := by
+      cases hlx : st.isLive (ι x) with
+      | false => rfl
+      | true =>
+        cases hly : st.isLive (ι y) with
+        | false => rfl
+        | true => exact absurd ⟨(live_iff R A.pool hx).1 hlx, (live_iff R A.pool hy).1 hly⟩ hl
+    rw [hb]
+    exact ⟨_, rfl⟩
 
 /-! ### (c) unrelate -/
 
@@ -1299,11 +1327,11 @@ theorem navigate_refines (hk : Function.Injective kname) (kinds : List Nat) (sch
 
 /-! ### (f) histories -/
 
-/-- the domain of the refinement: a relate is applied to live instances (as in `Meta.OpOk`), unrelate and delete to
-    handles of created instances, new to a class the Spec context knows -/
+/-- the domain of the refinement: relate, unrelate and delete are applied to handles of created instances (live or
+    deleted: a relate with a deleted instance is rejected on both sides), new to a class the Spec context knows -/
 def OpOk' (kinds : List Nat) (s : MState) : Pyx.Meta.Op → Prop
   | .new k _ => k ∈ kinds
-  | .relate x y _ _ => Pyx.Meta.live s x ∧ Pyx.Meta.live s y
+  | .relate x y _ _ => x < s.count ∧ y < s.count
   | .unrelate x y _ _ => x < s.count ∧ y < s.count
   | .delete x => x < s.count
 
@@ -1311,8 +1339,6 @@ def Dom' (kinds : List Nat) (sch : MSchema) : MState → List Pyx.Meta.Op → Pr
   | _, [] => True
   | s, op :: ops => OpOk' kinds s op ∧ Dom' kinds sch (Pyx.Meta.step sch s op).1 ops
 
-theorem opOk_of_opOk' {kinds : List Nat} {s : MState} {op : Pyx.Meta.Op} (h : OpOk' kinds s op) : Pyx.Meta.OpOk s op := by
-  cases op <;> first | exact h | trivial
 
 /-- the Spec operation that matches a mechanism operation, on the named instances; a rejected operation leaves the
     Spec state (and the naming) as it is -/
@@ -1352,7 +1378,7 @@ theorem step_refines (hk : Function.Injective kname) (kinds : List Nat) {sch : M
     simp only [specStep, h1, Pyx.Meta.step]
     exact h2
   | relate x y r p =>
-    have h := relate_refines hk kinds sch R A hop.1 hop.2 r p
+    have h := relate_refines' hk kinds sch R A hop.1 hop.2 r p
     simp only [specStep, Pyx.Meta.step]
     by_cases hc : (Pyx.Meta.relate sch s x y r p).2 = .ok
     · obtain ⟨st', h1, h2⟩ := h.1 hc
@@ -1386,7 +1412,7 @@ theorem run_refines_from (hk : Function.Injective kname) (kinds : List Nat) {sch
   | op :: ops, s, ι, st, R, A, hd => by
     simp only [specRun, List.foldl_cons]
     exact run_refines_from hk kinds hok ops _ _ _ (step_refines hk kinds hok R A op hd.1)
-      (Pyx.Meta.step_allInv hok A op (opOk_of_opOk' hd.1)) hd.2
+      (Pyx.Meta.step_allInv' hok A op) hd.2
 
 /-- **(f)** every history of new / relate / unrelate / delete in the domain, run by the mechanism (`Meta.run`) and —
     operation by operation, on the named instances — by Spec, ends in corresponding states -/
